@@ -2,6 +2,7 @@ import Percival.Proofs.HttpRequest
 import Percival.Proofs.HttpDecode
 import Percival.Proofs.HttpSeg
 import Percival.Proofs.HttpSamples
+import Percival.Proofs.HttpStep
 /-!
 # C09 — the HTTP client decodes every well-formed response exactly; the request is sent verbatim
 
@@ -109,5 +110,59 @@ example :
 theorem gen_constants : Percival.Gen.Http.INTERIM_MIN = 100 ∧ Percival.Gen.Http.INTERIM_MAX = 199 ∧
     Percival.Gen.Http.NOBODY_A = 204 ∧ Percival.Gen.Http.NOBODY_B = 304 ∧
     Percival.Gen.Http.STATUS_MIN = 100 ∧ Percival.Gen.Http.STATUS_MAX = 599 := by decide
+
+/-! ## the function the executable runs (`pmodel http`: `Model/HttpStep.lean`, component `httpwf`) -/
+
+open Percival.Model.HttpStep Percival.Proofs.HttpStep in
+/-- **The `run` line of a well-formed case is the Spec's answer.**  `runCase` is the function behind a `run` line
+of `pmodel http`.  When the case carries a response value `r` (`wff` line) whose wire format `serialize r` is the
+server's stream (`mkWf` keeps the value only then: `exec_value_is_stream`), `r` is well-formed and within the
+client's own limits (as in `decode_any_segmentation`), its body fits the caller's limit, the connection is made,
+nobody cancels, no `send` fails, the stream ends with EOF, and the `recv` script — any segment sizes, cycled — has no
+two EAGAINs in a row (`SegOK`: the model's event loop has fuel for one EAGAIN per byte): the executable's answer is
+exactly one callback with exactly `r`'s status, header names and values in order, and exactly its body — `serialize`
+decoded, for every segmentation —; in particular never `spec-mismatch`, never `NULL`, never `toobig`. -/
+theorem exec_wellformed_decoded (c : Cfg) (g : Bool) (r : Resp)
+    (hval : c.wf = some r) (hdata : c.data = serialize r (HttpRequest.isHead c.req))
+    (hwf : r.WF (HttpRequest.isHead c.req)) (hmax : (expectedBody r (HttpRequest.isHead c.req)).length ≤ c.limit)
+    (hsz : r.framing.body.length + 2 ≤ Http.SIZE_MAX)
+    (hblocks : (∀ b ∈ r.interim, b.serialize.length ≤ Percival.Gen.Http.MAXHDR + 1) ∧
+      r.final.serialize.length ≤ Percival.Gen.Http.MAXHDR + 1)
+    (hlines : ∀ cs le tail, r.framing = .chunked cs le tail →
+      (∀ c ∈ cs, (hex c.1.length ++ c.2).length + 1 < Percival.Gen.Http.MAXCHLEN) ∧
+      ([48] ++ le).length + 1 < Percival.Gen.Http.MAXCHLEN)
+    (hc : c.cancel = none) (hcr : c.cancelRecv = none) (hsf : c.sndfail = none) (hconn : c.conn < 2)
+    (hend : c.endReset = false) (hseg : SegOK (segOf c)) :
+    ∃ sent rs tr, runCase c g = .fin g c.early 1
+      (some (some { status := (r.final.status : Int), headers := expectedHeaders r, body := some (expectedBody r (HttpRequest.isHead c.req)) }))
+      sent true rs tr :=
+  runCase_wellformed c g r hval hdata hwf hmax hsz hblocks hlines hc hcr hsf hconn hend hseg
+
+open Percival.Model.HttpStep Percival.Proofs.HttpStep in
+/-- the hypotheses hold for the sample value delivered as 2 bytes, EAGAIN, 5 bytes, …, with limit 3 = |body| -/
+example : exWf.wf = some sample ∧ exWf.data = serialize sample (HttpRequest.isHead exWf.req) ∧
+    sample.WF (HttpRequest.isHead exWf.req) ∧ (expectedBody sample (HttpRequest.isHead exWf.req)).length ≤ exWf.limit ∧
+    SegOK (segOf exWf) ∧ exWf.cancel = none ∧ exWf.conn < 2 :=
+  ⟨rfl, by decide, sample_wf, by decide, segOK_of_b _ (by decide +kernel), rfl, by decide⟩
+
+open Percival.Model.HttpStep Percival.Proofs.HttpStep in
+/-- … and this is what the executable computes for it: status 200, `A: b` and `Transfer-Encoding: chunked`, body "hi!" -/
+example :
+    (match runCase exWf false with
+     | .fin false false 1 (some (some x)) _ true _ _ => decide (x.status = 200) && x.body == some [104, 105, 33] &&
+         x.headers == [([65], [98]), (sTransferEncoding, sChunked)]
+     | _ => false) = true := by decide +kernel
+
+open Percival.Model.HttpStep in
+/-- **The value judged is the stream played.**  A response value which `mkWf` (the `wff` line) keeps has the
+generated server stream as its wire format: `hval`/`hdata` of `exec_wellformed_decoded` hold for every case built
+by the protocol. -/
+theorem exec_value_is_stream (c : Cfg) (f : Framing) (r : Resp) (hne : c.wfBlocks ≠ []) (h : (mkWf c f).1.wf = some r) :
+    (mkWf c f).1.data = serialize r (HttpRequest.isHead (mkWf c f).1.req) :=
+  Percival.Proofs.HttpStep.mkWf_sound c f r hne h
+
+open Percival.Model.HttpStep in
+example : (mkWf { chunks := [serialize sample false], wfBlocks := [sample.final] ++ sample.interim.reverse } sample.framing).2 = true := by
+  decide +kernel
 
 end Percival.C09
